@@ -150,7 +150,8 @@ fn scenario(ctx: &Ctx, idx: u64) -> Report {
         }
         let t_up = outages.iter().map(|(_, b)| *b).max().unwrap_or(0);
         let outs = outages.clone();
-        let link = Link::uniform(2 * MS, 200 * MS);
+        let mut link = Link::uniform(2 * MS, 200 * MS);
+        link.dup_p = *[0.0, 0.0, 0.2].choose(&mut rng).unwrap();
         net.set_fault(Box::new(move |rng, meta| {
             if outs.iter().any(|(a, b)| meta.now >= *a && meta.now < *b) {
                 Fate::dropped()
@@ -193,6 +194,37 @@ fn scenario(ctx: &Ctx, idx: u64) -> Report {
         let waiters: Arc<Mutex<Vec<Waiter>>> = Arc::new(Mutex::new(Vec::new()));
         let n_waiters = rng.gen_range(1..=20);
         let mut tasks = Vec::new();
+        // API calls and further bootstrapped() callers arriving in the very instant a datagram reaches
+        // the node (e.g. the reply that completes the bootstrap), as callers on other threads would
+        let hammer = if rng.gen_bool(0.6) {
+            let h = crate::world::api_hammer(&net, &dht, addr, seed, *[0.05, 0.3, 1.0].choose(&mut rng).unwrap(), 2000);
+            let (dht3, net3, waiters3) = (dht.clone(), net.clone(), waiters.clone());
+            let mut orng = ChaCha8Rng::seed_from_u64(seed ^ 0xa115);
+            let mut left = 12;
+            net.add_observer(addr, move |_w| {
+                if left > 0 && orng.gen_bool(0.1) {
+                    left -= 1;
+                    let yields = orng.gen_range(0..4);
+                    let (dht4, net4, waiters4) = (dht3.clone(), net3.clone(), waiters3.clone());
+                    tokio::spawn(async move {
+                        for _ in 0..yields {
+                            tokio::task::yield_now().await;
+                        }
+                        let called = net4.now();
+                        let slot = {
+                            let mut w = waiters4.lock().unwrap();
+                            w.push(Waiter { called, resolved: None });
+                            w.len() - 1
+                        };
+                        let ok = dht4.bootstrapped().await;
+                        waiters4.lock().unwrap()[slot].resolved = Some((net4.now(), ok));
+                    });
+                }
+            });
+            Some(h)
+        } else {
+            None
+        };
         for _ in 0..n_waiters {
             let at = match rng.gen_range(0..4) {
                 0 => 0,
@@ -226,6 +258,19 @@ fn scenario(ctx: &Ctx, idx: u64) -> Report {
             }
         }
         settle().await;
+        if let Some(h) = &hammer {
+            let st = h.lock().unwrap();
+            report.add("api_calls_racing_deliveries", st.calls);
+            if let (Some((t, what)), true) = (st.failed.first(), alive) {
+                report.violation(
+                    "C15",
+                    "api-dead",
+                    format!("an API call issued in the instant of a delivery did not complete at {} ms: {what}", t / MS),
+                    info.clone(),
+                );
+                alive = false;
+            }
+        }
 
         // ---- oracle
         let log = net.log();
@@ -354,7 +399,9 @@ pub fn check(tier: Tier) -> Check {
         rule: "Builder configurations: 0..40 contacts given as nodes, routers (literal ip:port) or both; \
                each contact proper / silent / error-answering / garbage-answering; read-only on/off; IPv4/IPv6; \
                outage patterns (none, one outage of 1 s..2 h, flapping, up-then-down, random); 1..20 \
-               bootstrapped() callers at random times. Oracle: API liveness probes (get_state, \
+               bootstrapped() callers at random times, in 60 % of the runs also callers and bursts of get_state / \
+               load_contacts / local_addr calls issued in the very instant a datagram reaches the node (racing \
+               the bootstrap worker's state changes); 20 % duplicated datagrams in a third of the runs. Oracle: API liveness probes (get_state, \
                load_contacts, local_addr within 2 virtual seconds) six times per run; no traffic and \
                immediate resolution without contacts; no resolution before the first reply from a contact \
                was delivered; with plain-node contacts of which at least one answers properly every waiter \
@@ -373,6 +420,7 @@ pub fn check(tier: Tier) -> Check {
             ("configs_without_contacts", tier.pick(40, 600)),
             ("configs_with_node_router_overlap", tier.pick(0, 0)),
             ("api_liveness_probes", tier.pick(4_000, 80_000)),
+            ("api_calls_racing_deliveries", tier.pick(20_000, 400_000)),
         ],
         exhaustive: false,
     }
